@@ -192,15 +192,3 @@ def prover_static(x):
     return isinstance(x, tuple) and x and x[0] == 'addr' and prover.root_static(x[1]) == 'EMPTY_CHUNK'
 
 
-def thorough(ctx):
-    c01.thorough.__globals__['run']  # noqa
-    for cfg in ('rel-default', 'rel-coll'):
-        sub = type(ctx)(ctx.pid, ctx.tier, ctx.seed)
-        sub.repo = ctx.repo
-        run(sub, cfg)
-        for v in sub.violations:
-            if not any(x['key'] == v['key'] for x in ctx.violations):
-                ctx.violations.append(v)
-        for k, n in sub.counts.items():
-            ctx.counts[k] = ctx.counts.get(k, 0) + n
-        ctx.configs_used.extend(sub.configs_used)
